@@ -409,6 +409,54 @@ fn params(m: &Model, ctx: &mut Ctx) {
     }
 }
 
+/// C09.traverse: "at any depth". The expansions of C09 (COMPONENTS OF, selection types, class-field references, constraint
+/// references, DEFAULT linking) are found by recursive traversals of `ASN1Type`. A component can sit below five kinds of
+/// container — SEQUENCE, SET, CHOICE, SEQUENCE OF, SET OF — so every traversal (a method of `ASN1Type` whose `match self`
+/// recurses into at least two of them) must recurse into all five; the exceptions are audited one by one
+/// (audit/traversal.json). Siblings are cross-checked: the majority shape is the rule, a deviant is reported.
+pub fn traverse(m: &Model, ctx: &mut Ctx, rule: &str) {
+    use crate::eval::{Evaluator, Val, Env};
+    let audit: serde_json::Value = std::fs::read_to_string(ctx.verif.join("audit/traversal.json")).ok().and_then(|s| serde_json::from_str(&s).ok()).unwrap_or(serde_json::json!({"exceptions": {}}));
+    let consts = const_resolver(m);
+    let hook = |_: &Evaluator, _: &str, _: &[Val]| -> Option<Result<Val, String>> { None };
+    let ev = Evaluator { consts: &consts, call_hook: &hook, inline: None };
+    const KINDS: [&str; 5] = ["Sequence", "Set", "Choice", "SequenceOf", "SetOf"];
+    let mut seen = 0;
+    for f in m.fns.iter().filter(|f| f.krate == "rasn-compiler" && f.self_ty.as_deref() == Some("ASN1Type") && f.module.starts_with("validator")) {
+        let Some(mt) = model::matches_in(&f.block).into_iter().find(|mt| { let e = tok(&mt.expr); e == "self" || e == "*self" || e == "&self" }) else { continue };
+        let call = format!("{}(", f.name);
+        let mut covered: Vec<&str> = vec![];
+        for k in KINDS {
+            let v = Val::Ctor(k.to_string(), vec![Val::Opaque("payload".into())], Default::default());
+            if let Ok((i, _)) = ev.select_arm(&mt, &v, &Env::new()) {
+                let arm = &mt.arms[i];
+                // the arm must name the variant (a wildcard arm does not visit anything) and hand on to the same traversal
+                if tok(&arm.pat).contains(&format!("ASN1Type::{}(", k)) && tok(&arm.body).contains(&call) {
+                    covered.push(k);
+                }
+            }
+        }
+        if covered.len() < 2 {
+            continue;
+        }
+        seen += 1;
+        ctx.func(&f.key);
+        for k in KINDS {
+            ctx.oblige(rule, &format!("{}:{}", f.name, k), true);
+            if covered.contains(&k) {
+                continue;
+            }
+            if let Some(r) = audit["exceptions"].get(&f.name).and_then(|e| e.get(k)).and_then(|r| r.as_str()) {
+                ctx.sample(serde_json::json!({"traversal": f.name, "not_visited": k, "audited": r}));
+                continue;
+            }
+            ctx.violate(rule, &format!("container-not-visited:{}:{}", f.name, k), &f.file, f.line,
+                &format!("ASN1Type::{} recurses into {:?} but not into {}: whatever it finds or rewrites is missed when it sits in a component below a {} (the sibling traversals visit all five container kinds)", f.name, covered, k, k));
+        }
+    }
+    ctx.floor(&format!("{}/traversals", rule), seen, 10);
+}
+
 pub fn run(m: &Model, ctx: &mut Ctx) {
     ctx.explanation = "C09.sym: each detector/rewriter pair of the linker (contains_components_of_notation / link_components_of_notation, has_choice_selection_type / link_choice_selection_type, \
 contains_constraint_reference / link_constraint_reference, references_class_by_name / resolve_class_reference) must traverse the same container variants of ASN1Type: a container the detector enters but the rewriter does not (or vice versa) leaves a notation unexpanded at that position. \
@@ -450,6 +498,7 @@ Not applicable: the equivalence sugared = expanded itself, independence from the
     }
 
     scope(m, ctx, "C09.scope");
+    traverse(m, ctx, "C09.traverse");
     order(m, ctx, "C09.order");
     params(m, ctx);
     constraint_pairs(m, ctx, "C09.sym");
